@@ -6,7 +6,7 @@ from props import _dhelp as H
 from common import bits, unbits, fb, close, canon_hash
 
 ID = "C17"
-SECTIONS = []
+SECTIONS = ["stats", "arrays"]
 LEAN_MODULES = ["QExPy.Props.C17"]
 THEOREMS = ["QExPy.ArrayEdit.C17_pyIndex_iff",
             "QExPy.ArrayEdit.C17_pyInsertPos_iff",
